@@ -1,7 +1,7 @@
 (* C07: the case type of the harness-written case files (model vs. implementation on the same histories).
    Definitions only. *)
 From ZV.Common Require Import Base Run.
-From ZV.C07 Require Import Model ModelFive ModelTL ModelTiered.
+From ZV.C07 Require Import Model ModelFive ModelTL ModelTiered ModelSecure.
 Open Scope N_scope.
 
 Inductive xcase :=
@@ -14,7 +14,10 @@ Inductive xcase :=
 | XTl (impl_classes : list N) (c : tlcfg) (ops : list tlop) (expect : list (option Z))
 (* TieredMemoryAllocator: configuration, history, and per allocation: tier, serving pool, pool hit, creating pool and
    serial of the chunk; per deallocation: receiving pool, kept / released *)
-| XTi (c : tcfg) (ops : list top) (expect : list (option Z)).
+| XTi (c : tcfg) (ops : list top) (expect : list (option Z))
+(* SecureMemoryPool: local_cache_size, history, and after every operation the result and the whole bookkeeping state
+   (local cache, shared stack, size of the active table) *)
+| XSec (lcache : N) (ops : list sop) (expect : list (option Z)).
 
 Definition xok (x : xcase) : bool :=
   match x with
@@ -25,4 +28,5 @@ Definition xok (x : xcase) : bool :=
       else negb impl_new
   | XTl ic c ops e => eqb_ln' ic TLS_SIZE_CLASSES && eqb_loz (tl_observe c ops) e
   | XTi c ops e => eqb_loz (t_observe c ops) e
+  | XSec lc ops e => eqb_loz (s_observe lc ops) e
   end.
